@@ -350,7 +350,10 @@ def work(item) -> Dict[str, Any]:
             if n == cname:
                 o = cls()
                 fill(o, "mixed")
-                cls.from_dict(o.to_dict())
+                try:
+                    cls.from_dict(o.to_dict())
+                except Exception as e:
+                    problems.append({"kind": "codec-raised", "codec": "dict", "what": f"valx.{n}/mixed (before the second definition set)", "exc": f"{type(e).__name__}: {str(e)[:120]}"})
                 if is_msg:
                     # ... and decoded once as header plus data while the FIRST definition was the registered one (the type id has
                     # been looked up before the definition is registered again with another layout)
